@@ -2506,7 +2506,12 @@ func (e *Engine) CreateIterator(ctx context.Context, measurement string, opt que
 				refOpt.Ordered = true
 				refOpt.Expr = call.Args[0]
 
-				itrs, err := e.createVarRefIterator(ctx, measurement, refOpt)
+				// Every series contributes its first (last) point and the call
+				// iterator above the merge picks among them. Limiting the merged
+				// series instead would keep an arbitrary one of the points that
+				// share the first (last) timestamp, and the result would depend on
+				// how the series are spread over the shards.
+				itrs, err := e.createVarRefIterator(ctx, measurement, refOpt, true)
 				if err != nil {
 					return nil, err
 				}
@@ -2523,7 +2528,7 @@ func (e *Engine) CreateIterator(ctx context.Context, measurement string, opt que
 		return newMergeFinalizerIterator(ctx, inputs, opt, e.logger)
 	}
 
-	itrs, err := e.createVarRefIterator(ctx, measurement, opt)
+	itrs, err := e.createVarRefIterator(ctx, measurement, opt, false)
 	if err != nil {
 		return nil, err
 	}
@@ -2615,7 +2620,9 @@ func (e *Engine) createCallIterator(ctx context.Context, measurement string, cal
 }
 
 // createVarRefIterator creates an iterator for a variable reference.
-func (e *Engine) createVarRefIterator(ctx context.Context, measurement string, opt query.IteratorOptions) ([]query.Iterator, error) {
+// If limitSeries is true the LIMIT and OFFSET are applied to every series and
+// not to the merged series of a tag set.
+func (e *Engine) createVarRefIterator(ctx context.Context, measurement string, opt query.IteratorOptions, limitSeries bool) ([]query.Iterator, error) {
 	ref, _ := opt.Expr.(*influxql.VarRef)
 
 	if exists, err := e.index.MeasurementExists([]byte(measurement)); err != nil {
@@ -2663,7 +2670,7 @@ func (e *Engine) createVarRefIterator(ctx context.Context, measurement string, o
 			// is different than the current grouping, we need to perform the
 			// limit on each of the individual series keys instead to improve
 			// performance.
-			if (opt.Limit > 0 || opt.Offset > 0) && len(opt.Dimensions) != len(opt.GroupBy) {
+			if (opt.Limit > 0 || opt.Offset > 0) && (limitSeries || len(opt.Dimensions) != len(opt.GroupBy)) {
 				for i, input := range inputs {
 					inputs[i] = newLimitIterator(input, opt)
 				}
@@ -2676,7 +2683,7 @@ func (e *Engine) createVarRefIterator(ctx context.Context, measurement string, o
 			}
 
 			// Apply a limit on the merged iterator.
-			if opt.Limit > 0 || opt.Offset > 0 {
+			if (opt.Limit > 0 || opt.Offset > 0) && !limitSeries {
 				if len(opt.Dimensions) == len(opt.GroupBy) {
 					// When the final dimensions and the current grouping are
 					// the same, we will only produce one series so we can use
